@@ -1,8 +1,12 @@
 """Worker pool: run `module.func(case)` on the real code in child processes.
 
-Every case has a wall-clock limit; a child that does not answer in time is killed and the
-case is reported as {"timeout": True} (the caller decides whether that is a violation, e.g.
-a non-terminating operation). Crashes of the child (segfault inside HDF5, ...) are reported
+Every case has a time limit measured in **CPU time of the child** (utime+stime from
+/proc/<pid>/stat), so that a loaded machine cannot turn a slow case into a "does not
+terminate" verdict; a generous wall-clock limit (15 x limit + 120 s) additionally catches a
+child that blocks without computing. A child that exceeds a limit is killed and the case is
+reported as {"timeout": True} (the caller decides whether that is a violation, e.g. a
+non-terminating operation; `core.Ctx.correspond` first re-runs such a case alone with three
+times the limit). Crashes of the child (segfault inside HDF5, ...) are reported
 as {"crash": ...}.
 """
 import json
@@ -15,6 +19,17 @@ import time
 HERE = os.path.dirname(os.path.abspath(__file__))
 VERIF = os.path.dirname(HERE)
 PY = os.environ.get("METADOR_PY", "/venv/bin/python")
+_TICK = float(os.sysconf("SC_CLK_TCK"))
+
+
+def _cpu(pid):
+    """CPU seconds (user+system, all threads) consumed so far by process `pid`; None if unknown."""
+    try:
+        with open("/proc/%d/stat" % pid, "rb") as f:
+            rest = f.read().rsplit(b")", 1)[1].split()
+        return (int(rest[11]) + int(rest[12])) / _TICK
+    except Exception:
+        return None
 
 
 class _Child:
@@ -31,13 +46,26 @@ class _Child:
             env=env,
             cwd=VERIF,
         )
-        self.busy = None  # (index, deadline)
+        self.busy = None  # (index, hard wall-clock deadline)
+        self.cpu0 = 0.0
+        self.cpu_limit = 0.0
         self.buf = b""
 
     def send(self, idx, case, timeout):
         self.p.stdin.write((json.dumps(case) + "\n").encode())
         self.p.stdin.flush()
-        self.busy = (idx, time.time() + timeout)
+        self.cpu0 = _cpu(self.p.pid) or 0.0
+        self.cpu_limit = timeout
+        self.busy = (idx, time.time() + 15.0 * timeout + 120.0)
+
+    def expired(self, now):
+        """the running case used more CPU time than its limit, or blew the wall-clock backstop"""
+        if now > self.busy[1]:
+            return True
+        c = _cpu(self.p.pid)
+        if c is None:  # no /proc: fall back to wall clock = limit
+            return now > self.busy[1] - 14.0 * self.cpu_limit - 120.0
+        return c - self.cpu0 > self.cpu_limit
 
     def kill(self):
         try:
@@ -68,9 +96,7 @@ def run(module, func, cases, timeout=30.0, workers=None, startup=120.0):
             busy = [c for c in children if c.busy is not None]
             if not busy:
                 break
-            now = time.time()
-            wait = max(0.0, min(c.busy[1] for c in busy) - now)
-            rl, _, _ = select.select([c.p.stdout for c in busy], [], [], min(wait, 1.0))
+            rl, _, _ = select.select([c.p.stdout for c in busy], [], [], 0.5)
             now = time.time()
             for i, c in enumerate(children):
                 if c.busy is None:
@@ -92,7 +118,7 @@ def run(module, func, cases, timeout=30.0, workers=None, startup=120.0):
                         except Exception as e:  # pragma: no cover
                             results[idx] = {"crash": "bad worker output: %r" % (e,)}
                         c.busy = None
-                elif now > deadline:
+                elif c.expired(now):
                     results[idx] = {"timeout": True}
                     c.kill()
                     children[i] = _Child(module, func)
@@ -126,12 +152,11 @@ class Session:
         c = self.c
         c.send(0, case, timeout + (startup if fresh else 0.0))
         while True:
-            wait = c.busy[1] - time.time()
-            if wait <= 0:
+            if c.expired(time.time()):
                 c.kill()
                 self.c = None
                 return {"timeout": True}
-            rl, _, _ = select.select([c.p.stdout], [], [], min(wait, 1.0))
+            rl, _, _ = select.select([c.p.stdout], [], [], 0.5)
             if rl:
                 chunk = os.read(c.p.stdout.fileno(), 1 << 20)
                 if not chunk:
